@@ -2,10 +2,11 @@ prop("C17",
      generators=["C17"],
      rule="budget: complete boundary grid {0,1ns,1ms±1,1.25ms±1,5ms±1,1s,5s,60s,2^31,2^40,2^62-1,2^62}^3 + random triples (boundary-biased; some outside the domain for wrap-around fidelity); "
           "TEI: every command stream of <=4 (thorough: 5) commands over an 8-command alphabet for sizes 3 and 5, plus random multi-game histories on one engine (sizes 3..8, startpos/TPS starts, move lists, go with clock arguments, stop/isready/quit, missing final newline); "
-          "compared: the whole output stream (info lines without the time field) and the engine's (searcher cached, size, position) after every command. Distinct op lines; trivial = none",
+          "plus every (mover, wtime, btime) on the clock grid {0,1,2,4,5,6,10,1000,60000 ms}^2 x {White, Black to move} with five movetime settings and increments, several go per engine and a second game on the same engine; "
+          "compared: the whole output stream (info lines without the time field), the engine's (searcher cached, size, position) after every command, and the DEADLINE analyze installs for every go (duration handed to context.WithTimeout, or none), observed through the build-time seam harness/rewrite/tei_server.json. Distinct op lines; trivial = none",
      assumptions=["ASCII command streams (strings.Fields/TrimSpace are modelled for bytes < 0x80)",
                   "PTN move / TPS token parsing is a parameter of the model (resolved per token by the real parsers, see C10/C11/C13)",
-                  "the searcher is an oracle: its answers are read from the real engine's output and checked for legality in the model's position; clock arguments in compared histories are >= 20 s so the depth-limited search is never cut short",
+                  "the searcher is an oracle: its answers are read from the real engine's output and checked for legality in the model's position; in fully compared histories the installed deadline is recorded but does not act on the search (the seam hands the search a context without deadline), so the output does not depend on the wall clock even for budgets of 0; streams with arbitrary go arguments run with the real deadline and are compared by outcome class and installed deadlines",
                   "budget rule domain: 0 <= movetime, gametime, inc <= 2^62 ns"],
      why="the Lean model of tei/server.go is proved to satisfy C17 (Props/C17.lean); the real code disagrees with it on this input")
 prop("C13tei",
